@@ -925,9 +925,11 @@ def check_c08(res, tier, replay):
 # ------------------------------------------------------------------------------------------ C14
 # configurations the harness gives the members of wrapped strategies (harness/reports.go defaultNs)
 DEFAULT_NS = {'Macd': [3, 5, 2], 'Rsi': [4], 'Bop': [], 'BuyAndHold': [], 'Trix': [2], 'Vwma': [3], 'GoldenCross': [2, 5],
-              'Kdj': [3, 2, 2], 'Smma': [2, 4], 'Alligator': [4, 3, 2]}
+              'Kdj': [3, 2, 2], 'Smma': [2, 4], 'Alligator': [4, 3, 2], 'SuperTrend': [5, 4]}
 WRAPPED = ['And:Macd+Rsi', 'Or:Macd+Rsi', 'Majority:Macd+Rsi+Trix', 'Split:Macd+Rsi', 'Inverse:Macd', 'NoLoss:Macd',
-           'StopLoss:Macd', 'And:Bop+BuyAndHold', 'Or:Vwma+GoldenCross', 'Majority:Kdj+Bop+Rsi', 'NoLoss:Rsi', 'Inverse:Kdj']
+           'StopLoss:Macd', 'And:Bop+BuyAndHold', 'Or:Vwma+GoldenCross', 'Majority:Kdj+Bop+Rsi', 'NoLoss:Rsi', 'Inverse:Kdj',
+           # SuperTrend reads high/low one snapshot ahead of the close: wrappers must leave it that slack
+           'NoLoss:SuperTrend', 'StopLoss:SuperTrend', 'And:SuperTrend+BuyAndHold', 'Split:SuperTrend+BuyAndHold']
 
 
 def parse_report(line):
